@@ -95,6 +95,7 @@ def _check_part(w, item, parts, oracle):
     msg = coherence(tab, w.absent_id())
     if msg:
         w.fail(oracle + '.incoherent', 'partition part %r: %s' % (label, msg))
+    exp.type = tab.type        # the parts' table type is not specified
     d = diff_ref(Snap(tab), exp)
     if d:
         w.fail(oracle, 'part %r: %s' % (label, d))
@@ -185,6 +186,8 @@ def _order_like(exp, real_ids, ax):
 
 
 def _approx_adopt(w, res, exp, oracle, what, rtol, check_type=True):
+    if oracle == 'collapse.result':
+        exp.type = res.type    # the collapsed table's type is not specified
     msg = coherence(res, w.absent_id())
     if msg:
         w.fail(oracle + '.incoherent', what + ': ' + msg)
